@@ -122,6 +122,8 @@ def _first_nonplain(v):
 
 
 def run(ctx):
+    from rv import suiterun
+    suiterun.for_check(ctx, PROPERTY, ['dump_calls', 'load_calls'])
     from rpyc.core import brine
     rng = ctx.rng
     first = ctx.shard[0] == 0
